@@ -572,6 +572,35 @@ Definition delete_respects_locks (prog : list sop) (obs : list sobs) (results : 
   | _, _ => true
   end.
 
+(** Delete is lock-coupled too (judged on the implementation's lock probes, no
+    model involved): a Delete that is blocked in a mutex while nothing else is
+    in flight except paused Leaf.Updates can only be waiting for the leaf of one
+    of them, and it must then own the write lock of every node above that leaf
+    (a node it passed without its lock is open to whoever holds a handle to it). *)
+Definition is_del (o : sop) : bool :=
+  match o with SDelete _ | SDelCond _ => true | _ => false end.
+
+Definition delete_coupling_ok (prog : list sop) (o : sobs) : bool :=
+  let idx := seq 0 (List.length prog) in
+  let stat := fun i => nth i (so_status o) 0%nat in
+  let kind := fun f i => match nth_error prog i with Some x => f x | None => false end in
+  let cls := fun q => match find (fun pc => path_eqb (fst pc) q) (so_locks o) with
+                      | Some pc => snd pc | None => 0%nat end in
+  match filter (fun i => kind is_del i && Nat.eqb (stat i) 2) idx with
+  | [d] =>
+      if forallb (fun i => Nat.eqb i d || Nat.eqb (stat i) 0 || Nat.eqb (stat i) 3
+                           || (kind is_hold i && Nat.eqb (stat i) 1)) idx
+      then existsb (fun w =>
+             kind is_hold w && Nat.eqb (stat w) 1 &&
+             match nth_error prog w with
+             | Some x => forallb (fun k => Nat.eqb (cls (firstn k (sop_path x))) 2)
+                                 (seq 0 (List.length (sop_path x)))
+             | None => false
+             end) idx
+      else true
+  | _ => true
+  end.
+
 Definition sched_check (prog : list sop) (obs : list sobs) (results : list ares) (final : flat)
   : list (nat * N) :=
   (match accept prog [init_cfg prog] obs 0 with
@@ -582,6 +611,7 @@ Definition sched_check (prog : list sop) (obs : list sobs) (results : list ares)
   ++ map (fun i => (i, 6%N)) (find_idx (fun o => negb (coupling_ok prog o)) obs 0)
   ++ map (fun i => (i, 6%N))
          (filter (fun k => negb (get_coupling_ok prog obs k)) (seq 0 (List.length obs)))
+  ++ map (fun i => (i, 6%N)) (find_idx (fun o => negb (delete_coupling_ok prog o)) obs 0)
   ++ map (fun w => (w, 7%N))
          (filter (fun w => negb (write_excl_ok prog obs results w)) (seq 0 (List.length prog)))
   ++ map (fun d => (d, 8%N))
